@@ -29,6 +29,7 @@ RULE = (
     "ground truth W is what a second handler on the same logger saw at or above the file level. Oracle: forward = W (text, "
     "priority = from_level(level), tags, timestamp to the microsecond); threshold p = [r in W | prio <= p]; offset k = W[k:]; "
     "reverse = W[::-1]; tail n = last n (n >= len gives all); head n = first n of the filtered sequence; len(reader) = |W|; "
+    "Container mixprio: every second line without the <prio> prefix. Creation instants are set to the edges of a second by a logging filter. "
     "identical for all containers; hr prints str(record) of exactly those. Burst cases log 1 000 - 100 000 short records back to back. Two-logs cases run an open/log/close program over two log files that are open at the same time, in a child process, and read both back.  Non-trivial: >= 2 records and a non-forward mode or a "
     "threshold that removes something. Distinct by (records, mode, container)."
 )
